@@ -194,6 +194,24 @@ def check_accessors(ck, f, unit, label):
                   "%s does not return `self.container`: %s" % (fn["path"], mir.fmt(ret)[:160]))
         elif it == TG + "GetContainer" and nm == "build_with_ccont":
             n += 1
+            # semantic form first: whatever private constructor the body goes through, the result is an object whose `container` is the
+            # argument and whose every other field is the field of the same name of `self`
+            me, cont = ("sym", "self"), ("sym", "container")
+            outs = ev.run(fn, [me, cont])
+            if len(outs) == 1 and outs[0].kind == "ret" and sem.strip(outs[0].ret)[0] == "agg":
+                r = sem.strip(outs[0].ret)
+                adt = ev.adts.get(r[2]) if hasattr(ev, "adts") else None
+                names = [fl["name"] for fl in adt["variants"][0]["fields"]] if adt else []
+                ok = bool(names) and "container" in names and len(names) == len(r[4])
+                if ok:
+                    for fname, v in zip(names, r[4]):
+                        if fname == "container":
+                            ok = ok and sem.strip(v) == cont
+                        else:
+                            ok = ok and _field_of(v, me) == fname
+                if ok:
+                    ck.ob("R4-build-with-ccont", key, True, sample={"fn": fn["path"]})
+                    continue
             ok = ret[0] == "agg" and "container" in ret[3]
             if ok:
                 for fname, o in zip(ret[3], ret[4]):
